@@ -581,7 +581,10 @@ def h_coupled_jumptimes(ctx, prefix="C03"):
         raise PathAbort()
     sim = cmc._path_coupling_simulation
     fine_axis, piv = grid.axes[0], grid.origin_coordinate.value
-    incs = [2, -2, 2]  # even increments: copied to the coarse component (no coupling uniform needed)
+    incs = [2, 1, -2]  # the odd increment is moved to a neighbouring coarse state: the two components differ from the second jump on
+    right = ctx.bool("right")
+    decided = [bool(right)]
+    cmc.uniform = type("U", (), {"sample": lambda self_inner, size=1: ScriptedUniform([decided[0]])})()
     times = [ctx.real(f"tau{k}") for k in range(3)]
     ctx.assume(AND(times[0] > 0, times[1] > times[0], times[2] > times[1], T > times[2]))
     vals = np.empty(3, dtype=object)
@@ -607,8 +610,12 @@ def h_coupled_jumptimes(ctx, prefix="C03"):
     ctx.prove(f"{prefix}.coupled_jumptimes.components_aligned_with_times", ok, replay=rp)
     if ok:
         want = [0.0, vals[0], vals[1], vals[2], vals[2]]
+        c1 = fine_axis[piv + 2]
+        c2 = c1 + (fine_axis[piv + 2] if decided[0] else fine_axis[piv])
+        c3 = c2 + fine_axis[piv - 2]
+        want_c = [0.0, c1, c2, c3, c3]
         ctx.prove(f"{prefix}.coupled_jumptimes.fine_component_follows_its_values_and_repeats_the_last", AND(*[EQ(J[0, k], want[k]) for k in range(5)]), replay=rp)
-        ctx.prove(f"{prefix}.coupled_jumptimes.coarse_component_follows_its_values_and_repeats_the_last", AND(*[EQ(J[1, k], want[k]) for k in range(5)]), replay=rp)
+        ctx.prove(f"{prefix}.coupled_jumptimes.coarse_component_follows_its_values_and_repeats_the_last", AND(*[EQ(J[1, k], want_c[k]) for k in range(5)]), replay=rp)
 
 
 def h_copula_slices(ctx):
